@@ -33,8 +33,9 @@ impl Display for Variable {
     fn fmt(&self, f: &mut std::fmt::Formatter<'_>) -> std::fmt::Result {
         match self {
             Variable::Variable(name) => {
-                if name.contains("_") {
-                    //if it's a variable to be escaped
+                //leading underscores are part of a simple variable (`_x`), only an
+                //inner underscore means this is an escaped compound variable (`\\x_1`)
+                if name.trim_start_matches('$').trim_start_matches('_').contains('_') {
                     write!(f, "\\{}", name)
                 } else {
                     write!(f, "{}", name)
